@@ -4,7 +4,97 @@ mod common_kkt;
 use common_kkt::*;
 use vharness::*;
 
+/// Round 3, rollback path (`C02.rollback_never_infeasible` / `rollback_counterexample`):
+/// with `reduced_tol_ktratio ≤ 1000` the insufficient-progress rollback cannot end
+/// Almost*Infeasible (theorem); with `reduced_tol_ktratio > 1000` the model has a
+/// counterexample.  This family drives the implementation into rollbacks with the gate
+/// opened (`reduced_tol_ktratio ∈ {1e4 … 1e12}`), loose reduced infeasibility tolerances and
+/// tight optimality tolerances, so that an Almost*Infeasible verdict decided on the discarded
+/// iterate is reachable; the certificate oracle of `check_c02` judges every such verdict on
+/// the RETURNED vectors with the reduced tolerances.
+fn rollback_gate_family(s: &mut Session, count: usize, open: bool) {
+    for k in 0..count {
+        let kind = match k % 4 {
+            0 => Plant::PrimalInfeasible,
+            1 => Plant::DualInfeasible,
+            _ => Plant::Feasible,
+        };
+        let exotic = k % 3 != 0;
+        let illcond = s.rng.bool(0.5);
+        let mut p = plant(s, kind, exotic, illcond, false);
+        if s.rng.bool(0.4) {
+            // weakly (in)feasible: shrink the planted margin
+            let g = 10f64.powf(s.rng.uniform(-9.0, -3.0));
+            for v in p.b.iter_mut() {
+                *v *= 1.0 + g * s.rng.normal();
+            }
+        }
+        let mut st = random_sets(s);
+        let t = *s.rng.choose(&[1e-10, 1e-12, 1e-14, 1e-16]);
+        st.tol[0] = t;
+        st.tol[1] = t;
+        st.tol[2] = t;
+        if s.rng.bool(0.5) {
+            st.tol[3] = *s.rng.choose(&[1e-12, 1e-14, 1e-16]);
+            st.tol[4] = *s.rng.choose(&[1e-12, 1e-14, 1e-16]);
+        }
+        // AlmostSolved must not pre-empt the infeasibility branch
+        let rt = *s.rng.choose(&[1e-10, 1e-13, 1e-16]);
+        st.rtol[0] = rt;
+        st.rtol[1] = rt;
+        st.rtol[2] = rt;
+        st.rtol[3] = *s.rng.choose(&[5e-12, 1e-8, 1e-4]);
+        st.rtol[4] = *s.rng.choose(&[5e-5, 1e-3, 1e-1, 1.0]);
+        st.rtol[5] = if open {
+            *s.rng.choose(&[1e4, 1e6, 1e9, 1e12])
+        } else {
+            // gate (1/reduced_tol_ktratio)*1000 >= 1: Almost*Infeasible after a rollback is
+            // impossible by C02.rollback_never_infeasible (asserted by check_c02)
+            *s.rng.choose(&[1e-4, 1e-2, 1.0, 1e3])
+        };
+        if s.rng.bool(0.3) {
+            st.sreg = false;
+            st.dreg = false;
+        }
+        if s.rng.bool(0.3) {
+            st.ir = false;
+        }
+        s.count(if open { "family:rollback-gate-open" } else { "family:rollback-gate-closed" });
+        let out = submit_solve(s, &p, &st, "c02");
+        if out.contains("rolled_back=true") || out.contains("rolled_back=1") {
+            s.count(if open { "rollback-gate-open:rolled_back" } else { "rollback-gate-closed:rolled_back" });
+        }
+    }
+}
+
 fn generate(s: &mut Session) {
+    if let Ok(v) = std::env::var("VERIF_C02_GATE_SEARCH") {
+        // exploratory: only the rollback family, `v` cases
+        let n: usize = v.parse().unwrap_or(2000);
+        rollback_gate_family(s, n, true);
+        return;
+    }
+    // the recorded finding KF-C02-rollback-stale-verdict (known_findings.json): its two replays run
+    // first on every run; while the defect is present they fail and are reported as KNOWN-FINDING
+    if !s.is_searching() {
+        for f in ["finding-rollback-gate-1e4.json", "finding-rollback-gate-1e6.json"] {
+            let path = format!("{}/../findings/C02-rollback-stale-verdict/{}", env!("CARGO_MANIFEST_DIR"), f);
+            if let Ok(text) = std::fs::read_to_string(&path) {
+                if let Ok(v) = serde_json::from_str::<serde_json::Value>(&text) {
+                    if let Some(line) = v["input"].as_str() {
+                        s.count("corpus:KF-C02-rollback-stale-verdict");
+                        // the tag goes first: failure records keep only the head of the input
+                        let (chan, rest) = line.split_once(' ').unwrap_or((line, ""));
+                        s.submit(format!("{} kf=KF-C02-rollback-stale-verdict {}", chan, rest));
+                    }
+                }
+            }
+        }
+    }
+    // rollbacks with the κ/τ gate of the reduced test at or above 1 (every
+    // reduced_tol_ktratio <= 1000): theorem-backed expectation, see check_c02
+    let nrb = s.budget(400, 8000);
+    rollback_gate_family(s, nrb, false);
     // strongly infeasible plants (Farkas vectors), ill-conditioned variants, all scaling settings
     for k in 0..s.budget(1200, 15000) {
         let kind = if k % 2 == 0 { Plant::PrimalInfeasible } else { Plant::DualInfeasible };
